@@ -324,3 +324,97 @@ PROPS["C14"] = {
         "K1: `sudo` exits the process with status 0 from inside the name parser (known finding, not fixed)",
     ],
 }
+
+
+# ---------------------------------------------------------------- assembler (C05 and friends)
+def asm_classify(rq, impl):
+    f = impl.split(" ")
+    if f[0] == "diag" and len(f) > 1:
+        return "diag:" + f[1]
+    return f[0] if impl else "<empty>"
+
+
+def asm_nontrivial(rq, impl):
+    # every distinct source text is a case of its own; the empty text is the only trivial one
+    return not rq.endswith(" -")
+
+
+def asm_group(d):
+    return asm_classify(d["request"], d["impl"]) + "/" + asm_classify(d["request"], d.get("model") or "")
+
+
+PROPS["C05"] = {
+    "theorems": [
+        "Lace.C05.assemble_no_panic",
+        "Lace.C05.diag_points_inside",
+        "Lace.C05.token_progress",
+        "Lace.C05.assemble_terminates",
+    ],
+    "compare": cmp_default,
+    "classify": asm_classify,
+    "nontrivial": asm_nontrivial,
+    "group": asm_group,
+    "rule": ("UTF-8 source texts: grammar-derived programs over the whole instruction / trap / directive set under "
+             "random layouts and literal spellings; the same with token-level mutations (delete, duplicate, swap, "
+             "insert, replace by a token of any kind incl. data directives, .break, .orig, strings), byte-level "
+             "mutations, 2/3/4-byte characters at token boundaries and after x/0x/#/rN/\"/., comments abutting "
+             "tokens, fragment soups, size extremes (.blkw xFFFF repeated, label distances around 0x8000, more than "
+             "65,535 statements) and a corpus of past witnesses. A case is (stack flag, text); compared: outcome "
+             "class, diagnostic kind and primary label span, and for accepted texts origin, every emitted word, "
+             "every statement span and the .break addresses. Checked directly on the implementation: no unwind, "
+             "the report renders with {:?}, every label lies inside the source."),
+    "trusted": [
+        "Lean re-implementations of Rust's i16/u16::from_str_radix, char::to_digit, is_ascii_whitespace, to_ascii_lowercase",
+        "miette's renderer is exercised (must not panic), not modelled",
+    ],
+    "assumptions": [
+        "memory exhaustion is outside the model: the preprocessor expands .blkw/.stringz eagerly (65,535 tokens per `.blkw xFFFF`)",
+        "the warning printed for a negative .blkw count is not an observable of the model",
+    ],
+}
+
+def seq_classify(rq, impl):
+    parts = impl.split(" ## ")
+    ok = sum(1 for p in parts if p.startswith("ok"))
+    return "len%d:%dok%s" % (len(parts), ok, ":FRESH-DIFF" if " !fresh " in impl else "")
+
+
+PROPS["C19"] = {
+    "theorems": [
+        "Lace.C19.reset_eq_empty",
+        "Lace.C19.assemble_after_reset",
+        "Lace.C19.assemble_deterministic",
+        "Lace.C19.runSeq_reset_eq_map",
+        "Lace.C19.watch_recheck_eq_check",
+        "Lace.C19.stale_table_matters",
+    ],
+    "compare": cmp_default,
+    "classify": seq_classify,
+    "nontrivial": lambda rq, impl: True,
+    "group": lambda d: seq_classify(d["request"], d["impl"]),
+    "rule": ("histories of 2-6 sources (valid; failing in the lexer, in the parser after labels were recorded, in "
+             "backpatch, in emit; sharing label names; differing origins; the same source repeated) assembled one "
+             "after the other on ONE thread, with lace::reset_state() before each (4 of 5 histories) or without "
+             "(1 of 5: exercises the model's symbol-table threading). Compared per element: the full assembler "
+             "observation of C05 against the model's runSeq; with reset additionally, on the implementation, "
+             "against the same source assembled on a fresh thread (a difference is reported as `!fresh`)."),
+    "trusted": [
+        "the theorem is modest (purity is by construction in a functional model); that lace has no state besides "
+        "the symbol table is established by the correspondence check, not by proof",
+    ],
+    "assumptions": [
+        "`lace watch` itself (inotify, screen clearing) is not exercised; its closure is assemble / reset_state / reclaim",
+    ],
+}
+
+PROPS["C02"]["theorems"] = [
+    "Lace.C02.execute_eq_isa",
+    "Lace.C02.exec_frame",
+    "Lace.C02.exec_frame_regs",
+    "Lace.C02.exec_frame_mem",
+    "Lace.C02.execute_frame",
+    "Lace.C02.unknown_trap_stops",
+    "Lace.C02.stack_off_stops",
+    "Lace.C02.execute_no_panic",
+    "Lace.regfield_lt",
+]
